@@ -15,7 +15,7 @@ import labtech.lab as L
 import labtech.runners.process as P
 import labtech.runners.serial as S
 from labtech.cache import NullCache
-from labtech.exceptions import LabError, TaskDiedError
+from labtech.exceptions import LabError, TaskDiedError, TaskError
 from labtech.types import ResultMeta, RunnerBackend, TaskResult
 
 import dagtasks
@@ -86,6 +86,8 @@ def gen_case(rng, *, max_tids=8, backend=None):
             f |= 32         # fails iff the Lab context value is odd
         if f & 33 and rng.random() < 0.3:
             f |= 64         # chained exception
+        if f & 1 and rng.random() < 0.25:
+            f |= 256        # HOW it fails: a bytes write to sys.stdout (TypeError in run()); for the model a failing task
         fl.append(f)
     # instances
     inst = []          # (tid, [child iids])
@@ -115,6 +117,10 @@ def gen_case(rng, *, max_tids=8, backend=None):
     case = dict(cpu=rng.choice([2, 3]), be=be, mw=mw, cof=int(rng.random() < 0.8), bust=int(rng.random() < 0.2), ty=ty, mp=mp,
                 ca=ca, fl=fl, kids=kids, shapes=shapes, inst=inst, req=req, pre={}, ctx=ctx,
                 sched=[rng.randrange(1, 8) if rng.random() < 0.85 else 0 for _ in range(rng.randint(0, 3 * n))])
+    # some types are RE-DECORATED SUBCLASSES of another type of the case (their own max_parallel / cache are the ones
+    # their decorator declares; for the model a subclass type is just another type index)
+    if rng.random() < 0.3:
+        case['sub'] = [None, rng.choice([0, 0, None]), rng.choice([0, 1, 1, None])]
     # a second run_tasks call on the same task objects and storage
     if rng.random() < 0.35:
         case['second'] = dict(req=[rng.randrange(len(inst)) for _ in range(rng.randint(1, 3))],
@@ -169,7 +175,10 @@ def gen_poison_case(rng, **kw):
         c.pop('second', None)
         cand = [t for t in c['pre'] if not (c['fl'][t] & 2)]
         if cand and not c['bust']:
-            c['poison'] = [rng.choice(cand)]
+            # mostly a task WITH dependencies: being cached it is planned without them, so whatever makes it run after
+            # all runs it before (or without) its dependencies
+            with_deps = [t for t in cand if c['kids'][t]]
+            c['poison'] = [rng.choice(with_deps if with_deps and rng.random() < 0.8 else cand)]
             c['cof'] = 1
             return c
     return None
@@ -209,14 +218,25 @@ def encode(case):
                   f"sched2={lst(s2['sched'] + [ALL] * (len(case['ty']) + 3))}")
     return (f"RUN be={case['be']} mw={mw} cof={case['cof']} bust={case['bust']} ty={lst(case['ty'])} "
             f"mp={','.join('-' if x is None else str(x) for x in case['mp'])} ca={lst(case['ca'])} "
-            f"fl={lst(case['fl'])} inst={inst} req={lst(case['req'])} pre={pre} sched={lst(sched)} ctx={case['ctx']}" + second)
+            f"fl={lst(f & dagtasks.MODEL_BITS for f in case['fl'])} inst={inst} req={lst(case['req'])} pre={pre} sched={lst(sched)} ctx={case['ctx']}" + second)
 
 
 # ------------------------------------------------------------------ building the real objects
 def configure_types(case):
-    for T, cls in enumerate(dagtasks.TYPES):
+    """the task types of the case: type T is the fixed class dagtasks.T<T>, or - when case['sub'][T] names a parent
+    type - a subclass of the parent's class that is decorated again with its OWN cache and max_parallel, declared
+    through labtech.task as a user declares them (never by writing the subclass's configuration directly)"""
+    sub = case.get('sub') or [None, None, None]
+    types = []
+    for T, cls in enumerate(dagtasks.BASE_TYPES):
         cache = dagtasks.RecPickleCache() if case['ca'][T] else NullCache()
-        cls._lt = dataclasses.replace(cls._lt, cache=cache, max_parallel=case['mp'][T])
+        parent = sub[T] if T < len(sub) else None
+        if parent is None or not (0 <= parent < T):
+            cls._lt = dataclasses.replace(cls._lt, cache=cache, max_parallel=case['mp'][T])
+        else:
+            cls = dagtasks.declare_subtype(T, types[parent], cache=cache, max_parallel=case['mp'][T])
+        types.append(cls)
+    dagtasks.TYPES[:] = types
 
 
 def build_objects(case):
@@ -352,6 +372,21 @@ def code(v):
     return dagtasks.NONE_CODE if v is None else v
 
 
+def readable_results(objs):
+    """public observation after a run_tasks call: which task objects of the case still answer `.result`
+    ([instance index, tid, what it gave]); a task whose result is not held in memory raises TaskError"""
+    out = []
+    for i, o in enumerate(objs):
+        try:
+            v = o.result
+            out.append([i, o.k, 'the value %s' % (code(v),)])
+        except TaskError:
+            pass
+        except BaseException as e:
+            out.append([i, o.k, 'raised ' + type(e).__name__ + ' instead of TaskError'])
+    return out
+
+
 def phases_of(case):
     """a case is one run_tasks call, optionally followed by a second one on the SAME task objects and
     storage (another Lab: other context, request list, bust flag, schedule)"""
@@ -379,14 +414,16 @@ def run_real(case, workdir):
     obs_all, recs = [], []
     store_before = dict(case['pre'])
     marked_before = []
+    after_abort = False
     lab = None
     real_cpu_count = os.cpu_count
     if case['mw'] is None and 'cpu' in case:
         os.cpu_count = lambda: case['cpu']      # the default worker count is the CPU count: make it small enough to bite
     try:
         for pi, ph in enumerate(phases_of(case)):
-            if os.path.exists(exec_log):
-                os.unlink(exec_log)
+            for path in (exec_log, exec_log + '.ind'):
+                if os.path.exists(path):
+                    os.unlink(path)
             dagtasks.EXEC_LOG = exec_log
             events = []
             if be != 'serial':
@@ -455,6 +492,10 @@ def run_real(case, workdir):
                 status = 'HANG ' + str(e)
             except BaseException as e:
                 status = 'raised ' + type(e).__name__ + ' ' + str(e)[:80]
+            readable_after = readable_results(objs)
+            indirect = []
+            if os.path.exists(exec_log + '.ind'):
+                indirect = sorted(l.rstrip('\n') for l in open(exec_log + '.ind'))
             st = RecordingTaskState.last
             spy = backend.spy
             inner = spy.inner if spy else None
@@ -512,6 +553,7 @@ def run_real(case, workdir):
             recs.append(dict(events=events, status=status, returned=returned, execs=execs, store=store, marked=marked,
                              plan=plan, objs=objs, inflight=inflight, phase=pi, store_before=store_before,
                              marked_before=marked_before, store_errors=store_errors, lab_error_cause=lab_error_cause,
+                             readable_after=readable_after, indirect=indirect, after_abort=after_abort,
                              alive_at_exit=sorted(fakeproc.task_of(p.kwargs['thunk']).k for p in fakeproc.CTL.procs.values() if p.alive) if be != 'serial' else [],
                              terminated=[t.k for t in fakeproc.CTL.terminated] if be != 'serial' else []))
             obs_all.append('; '.join(parts))
@@ -522,6 +564,7 @@ def run_real(case, workdir):
             if not status.startswith(('returned', 'raised LabError')):
                 break
             if status.startswith('raised LabError'):
+                after_abort = True
                 # aborted call: workers still in flight finish in the background (the fake layer has already run them)
                 for t in sorted(inflight):
                     o = first.get(t)
